@@ -42,17 +42,18 @@ def lean_obligations(pid, tier, log):
     """returns (obligations, discharged, problems[list of str], checker_cmd)"""
     cfg = PROPS[pid]
     thms = cfg["theorems"]
+    mods = cfg.get("modules", [f"SfsModel.Props.{pid}"])
     problems = []
     checker = f"cd lean && lake build SfsModel.Props.{pid} sfsmodel && lake env lean <audit: #print axioms per theorem>"
     with Lock("lake.lock"):
-        rc, out = sh(["lake", "build", f"SfsModel.Props.{pid}", "sfsmodel"], cwd=LEAN, timeout=3600)
+        rc, out = sh(["lake", "build"] + mods + ["sfsmodel"], cwd=LEAN, timeout=3600)
     log.append(out[-4000:])
     sorry_lines = re.findall(r"(\S+\.lean):(\d+):\d+: declaration uses `sorry`", out)
     if rc != 0:
-        problems.append(f"lake build SfsModel.Props.{pid} failed (rc={rc})")
+        problems.append(f"lake build {' '.join(mods)} failed (rc={rc})")
         return len(thms), 0, problems, checker
     # source hygiene over the import closure of this property's theorem file and the driver (comment text discarded)
-    for path in import_closure([os.path.join(LEAN, "SfsModel", "Props", f"{pid}.lean"), os.path.join(LEAN, "Driver.lean")]):
+    for path in import_closure([os.path.join(LEAN, *m.split(".")) + ".lean" for m in mods] + [os.path.join(LEAN, "Driver.lean")]):
         for i, line in enumerate(strip_comments(open(path).read()).split("\n")):
             if FORBIDDEN.search(line):
                 problems.append(f"forbidden token in {os.path.relpath(path, LEAN)}:{i+1}: {line.strip()[:80]}")
@@ -60,7 +61,7 @@ def lean_obligations(pid, tier, log):
     os.makedirs(os.path.join(WORK, "audit"), exist_ok=True)
     audit = os.path.join(WORK, "audit", f"{pid}.lean")
     with open(audit, "w") as f:
-        f.write(f"import SfsModel.Props.{pid}\n")
+        for m in mods: f.write(f"import {m}\n")
         for t in thms: f.write(f"#print axioms Sfs.{pid}.{t}\n")
     rc, out = sh(["lake", "env", "lean", audit], cwd=LEAN, timeout=1800)
     log.append(out[-4000:])
@@ -74,7 +75,7 @@ def lean_obligations(pid, tier, log):
         if bad: problems.append(f"theorem Sfs.{pid}.{t} depends on {sorted(bad)}")
         else: discharged += 1
     if tier == "thorough":
-        rc, out = sh(["lake", "env", "leanchecker", f"SfsModel.Props.{pid}"], cwd=LEAN, timeout=3600)
+        rc, out = sh(["lake", "env", "leanchecker"] + mods, cwd=LEAN, timeout=3600)
         log.append("leanchecker rc=%d %s" % (rc, out[-1000:]))
         checker += f" && lake env leanchecker SfsModel.Props.{pid}"
         if rc != 0: problems.append("leanchecker rejected SfsModel.Props.%s" % pid)
@@ -127,6 +128,23 @@ def run_correspondence(pid, tier, seed, replay=None):
     if rc != 0 or len(verdicts) != len(lines):
         problems.append(f"model driver failed (rc={rc}, {len(verdicts)} verdicts for {len(lines)} lines): {out[-300:]}")
     return lines, verdicts, problems
+
+def source_drift(pid):
+    """files among the property's anchors (and the other transcribed sources) whose content differs from the baseline the model was validated against"""
+    try:
+        base = json.load(open(os.path.join(VERIF, "lib", "source_baseline.json")))["files"]
+        anchors = []
+        for l in open(os.path.join(VERIF, "properties.jsonl")):
+            p = json.loads(l)
+            if p["id"] == pid: anchors = p["anchors"]["files"]
+        drift = []
+        for f, h in base.items():
+            path = os.path.join(REPO, f)
+            cur = hashlib.sha256(open(path, "rb").read()).hexdigest() if os.path.exists(path) else "missing"
+            if cur != h: drift.append(f + (" (anchor of this property)" if f in anchors else ""))
+        return sorted(drift)
+    except Exception as e:
+        return ["baseline unavailable: %s" % e]
 
 def load_known():
     p = os.path.join(VERIF, "known_findings.json")
@@ -193,6 +211,31 @@ def main(argv):
                 f.write(l.split("\t=>\t")[0] + "\n")
         violation = (path, "")
     elif proof_problems or build_problems or run_problems:
+        # an obligation or the correspondence no longer checks: search the implementation for a concrete failing input with
+        # further seeds (and the thorough generators where they are quick) before reporting without one
+        found = None
+        if not replay and not any("harness no longer builds" in p for p in build_problems) and not any("model driver failed" in p or "lake build" in p for p in run_problems + proof_problems[:0]):
+            searches = [("quick", seed + 1), ("quick", seed + 2), ("quick", seed + 3)]
+            if tier == "quick" and pid not in ("C03", "C06", "C12", "C17"): searches.append(("thorough", seed))
+            for (t2, s2) in searches:
+                try:
+                    l2, v2, _ = run_correspondence(pid, t2, s2)
+                except Exception:
+                    break
+                bad2 = [(l, v) for l, v in zip(l2, v2) if not v.startswith("ok\t") and not any(re.search(k["match"], l) for k in known)]
+                if bad2:
+                    found = sorted(bad2, key=lambda lv: len(lv[0]))[:5]; break
+        if found:
+            h = hashlib.sha1(found[0][0].encode()).hexdigest()[:10]
+            path = os.path.join(WORK, "replays", f"{pid}-{h}.case")
+            with open(path, "w") as f:
+                f.write(f"# property {pid}: an obligation no longer checks and the witness search found an input on which implementation and model disagree; replay with ./check {pid} --replay {path}\n")
+                for p in proof_problems + build_problems + run_problems: f.write("# " + p[:300].replace("\n", " ") + "\n")
+                for l, v in found:
+                    f.write("# " + v[:1500].replace("\n", " ") + "\n")
+                    f.write(l.split("\t=>\t")[0] + "\n")
+            violation = (path, "")
+    if violation is None and (proof_problems or build_problems or run_problems):
         path = os.path.join(WORK, "replays", f"{pid}-unchecked.txt")
         with open(path, "w") as f:
             f.write(f"# property {pid}: no longer shown to hold; no failing input found by the correspondence run ({len(lines)} cases agreed)\n")
@@ -200,6 +243,8 @@ def main(argv):
             for p in build_problems + run_problems: f.write("correspondence: " + p + "\n")
         violation = (path, " no-failing-input-found")
     wall = time.time() - t0
+    drift = source_drift(pid)
+    if drift: print("  note: transcribed sources differ from the validated baseline (not a violation by itself): " + ", ".join(drift)[:400])
     samples = []
     step = max(1, len(lines) // 6)
     for l in lines[::step][:6]: samples.append(l[:400])
@@ -214,6 +259,7 @@ def main(argv):
             "rule": cfg["rule"], "exhaustive": bool(cfg.get("exhaustive", False)),
             "branch_histogram": dict(sorted(tags.items())),
             "mismatches": len(mismatches), "known_findings_hit": sorted(known_hit),
+            "source_drift": drift,
             "samples": samples,
             "correspondence_only_clauses": cfg.get("correspondence_only", []),
         },
